@@ -825,7 +825,7 @@ class Cas:
         return self._sofa_num_generator.generate_id()
 
     def _copy(self) -> "Cas":
-        result = Cas(self._typesystem)
+        result = Cas(self._typesystem, lenient=self._lenient)
         result._views = self._views
         result._sofas = self._sofas
         result._current_view = self._current_view
